@@ -1,5 +1,5 @@
 """C02 — committed containers are never modified again (frames and effect order of the record life cycle)."""
-from . import hashing, manifest, naming, record, ublock
+from . import hashing, manifest, naming, ovlguards, record, ublock
 
 
 def build(reg):
@@ -9,9 +9,10 @@ def build(reg):
     specs += manifest.add_manifest(reg)
     specs += ublock.add_ublock(reg)  # the bodies behind the user-block contracts the life cycle calls (verified on their own, not registered as callees)
     specs += [x for x in naming.add_naming(reg, register=False) if x.qual.endswith('_infer_name')]
+    specs += ovlguards.add_ovlguards(reg)  # what 'writable' means, and that a dataset node writes only into the newest uncommitted container
     return {
         "verify": specs,
         "lemmas": [],
-        "trusted": hashing.TRUSTED + [record.T1_OPEN, record.T1_X, record.T2_UNLINK, record.T3_HEX, record.T5_UB, record.T6_UUID, manifest.T5_MF] + ublock.T_UB,
+        "trusted": hashing.TRUSTED + [record.T1_OPEN, record.T1_X, record.T2_UNLINK, record.T3_HEX, record.T5_UB, record.T6_UUID, manifest.T5_MF] + ublock.T_UB + ovlguards.T_GUARDS,
         "assumptions": ["IH5UserBlock.save / create are callee contracts in the life-cycle functions; their bodies are verified separately in this check (UbSaveBody, UbCreateBody) against the same statements", "_next_patch_filepath returns some path in the life-cycle contracts (its text is under contract in C03); freshness is not needed because _new_container uses mode 'x'"],
     }
